@@ -86,7 +86,7 @@ func runC06(c *Ctx) {
 	c.Rule("C06.N1", "MAP-ORDER", "every range over a map in a function reachable from block execution is order-free: it does not leave the loop early except on an error, emits no logs, and any slice it builds with append is sorted (or only logged) before use")
 	c.Min(14)
 	tabled := map[string]string{
-		"(trie.cachedNode).childs#0":         "the children are only reference-counted one by one by the callers (commutative per-child updates), as in upstream go-ethereum",
+		"(trie.cachedNode).childs#0":        "the children are only reference-counted one by one by the callers (commutative per-child updates), as in upstream go-ethereum",
 		"(staking.votesWatcher).Inactive#1": "the output slice is only joined into a log line; inactiveAddresses is sorted before it is returned",
 	}
 	for _, fn := range fns {
@@ -298,7 +298,7 @@ func runC06(c *Ctx) {
 	c.Min(1)
 	allowedGo := map[string]string{
 		"(core.DefaultConverter).ApplyMessage": "watches an optional cancellation context (RPC call timeouts) and only calls evm.Cancel(); block import and block building pass no cancellable context",
-		"core.ProcessSenders": "recovers transaction senders in parallel and stores each into that transaction's own sender cache",
+		"core.ProcessSenders":                  "recovers transaction senders in parallel and stores each into that transaction's own sender cache",
 	}
 	nGo := 0
 	for _, fn := range fns {
